@@ -17,14 +17,20 @@ judge : (a) every reported start table has uniform weight 1 and is the regenerat
         the regenerated tables to the NCBI codes) — "a freshly requested default table is pristine", judged on
         what poly itself built; (b) implementation trace == value-semantics spec from those tables.
 kf    : a judged failure carries a known-finding tag ONLY IF the start was pristine, the history is not Linear
-        AND the implementation's trace is exactly the heap model's (the recorded defect IS the heap model's
-        sharing).  The id is chosen by the region the first linearity break exposes: a default table
-        (C08-alias-default) or a table built by add / compromise / json (C08-receiver-mutated).
+        AND the implementation's trace is exactly the heap model's.  The class is exact as far as the heap model
+        is: `hstep` and `vstep` apply the same addTable / compromise / re-weighting (Props/C08 `reweight_exact`) to
+        table values and differ only in WHICH value a handle denotes, so "implementation = heap model ≠ value spec"
+        can only come from sharing; by `history_refines_partial` on the Linear prefix the first difference lies at or
+        after the first linearity break.  The id is chosen by the step that FAILS (the first step at which the
+        implementation differs from value semantics): the cell that step reads in the heap model is a default
+        table's (C08-alias-default) or a table built by add / compromise / json (C08-receiver-mutated).
         Anything else — unclean start, a failure on a Linear history, a non-Linear history on which the code
-        also disagrees with the heap model — is an ordinary FAIL.
-nan   : from the first `compromise` step whose operand has an amino acid of total weight 0 onwards the result
-        contains int(NaN), which Go leaves to the platform: from there on traces are compared up to the code
-        (letters, triplets, start/stop codons) only.
+        also disagrees with the heap model, a malformed reply — is an ordinary FAIL.
+nan   : a `compromise` one of whose operands has an amino acid of total weight 0 yields int(NaN) weights, which Go
+        leaves to the platform.  TAINT is tracked per handle (value run) and per cell (heap run): the result of such
+        a compromise is tainted; add / compromise / json / observe of a tainted table is tainted; a re-weighting
+        overwrites every weight (clean); a requested default table is clean unless its cell is tainted.  Only
+        observations tainted in either run are compared up to the code; every other step is compared exactly.
 Non-ASCII letters are ordinary judged input (framing by letters, /repo 053f18d); class suffix /non-ascii.
 What is assumed of strings.ToUpper outside ASCII is stated in Model/CodonTables.lean and gen/c08.py.
 -/
@@ -62,14 +68,15 @@ def showObs : Obs → String
   | .panic => "panic"
   | .fault => "fault"
 
-/-- implementation's step output, parsed (tables compared as values, not as text); anything unexpected is `fault` -/
+/-- implementation's step output, parsed (tables compared as values, not as text); anything unexpected or
+malformed is `fault`, which equals no model observation of a well-formed history -/
 def parseObs (s : String) : Obs :=
   if s == "err" then .err else if s == "panic" then .panic
-  else if s.startsWith "T" then .table (parseTable (s.drop 1).toString) else .fault
+  else if s.startsWith "T" && validTableText (s.drop 1).toString then .table (parseTable (s.drop 1).toString) else .fault
 
 /-- reported start table: `F…` (fresh in this process) or `R…` (snapshot restored) -/
 def parseStart (s : String) : Option Table :=
-  if s.startsWith "F" || s.startsWith "R" then some (parseTable (s.drop 1).toString) else none
+  if (s.startsWith "F" || s.startsWith "R") && validTableText (s.drop 1).toString then some (parseTable (s.drop 1).toString) else none
 
 def uniform1 (t : Table) : Bool := t.aminoAcids.all fun a => a.codons.all fun c => c.weight == 1
 
@@ -82,18 +89,64 @@ def cmpFloat : Table → Table → Float → Outcome Table := compromise floatAr
 
 def asciiStr (s : Str) : Bool := s.all fun c => c.val ≤ 127
 
-/-- index of the first compromise step one of whose operands (in the value run) has an amino acid of total weight 0 -/
-def firstNaN (defs : List (Nat × Table)) (hist : List (Op Float)) : Nat :=
-  let rec go (st : ValueTables.VState) (i : Nat) : List (Op Float) → Nat
-    | [] => i
+def hasNaN (t1 t2 : Table) : Bool := !(ValueTables.posTotals t1 && ValueTables.posTotals t2)
+
+def valStart : ValueTables.VState := { handles := [], trace := [] }
+
+/-- taint of every step's observation in the VALUE run (per handle) -/
+def valTaints (defs : List (Nat × Table)) (hist : List (Op Float)) : List Bool :=
+  let rec go (st : ValueTables.VState) (th : List Bool) : List (Op Float) → List Bool
+    | [] => []
     | op :: rest =>
-      let bad := match op with
-        | .compromise h1 h2 _ => match st.handles[h1]?, st.handles[h2]? with
-          | some t1, some t2 => !(ValueTables.posTotals t1 && ValueTables.posTotals t2)
-          | _, _ => false
-        | _ => false
-      if bad then i else go (ValueTables.vstep addTable cmpFloat defs st op) (i + 1) rest
-  go { handles := [], trace := [] } 0 hist
+      let t := fun (h : Nat) => (th[h]?).getD false
+      -- (taint of the new handle, taint of what the step shows)
+      let r : Bool × Bool := match op with
+        | .get _ => (false, false)
+        | .reweight _ _ => (false, false)
+        | .add h1 h2 => (t h1 || t h2, t h1 || t h2)
+        | .compromise h1 h2 _ =>
+          let x := t h1 || t h2 || (match st.handles[h1]?, st.handles[h2]? with
+            | some t1, some t2 => hasNaN t1 t2
+            | _, _ => false)
+          (x, x)
+        | .json h => (t h, t h)
+        | .observe h => (false, t h)
+      r.2 :: go (ValueTables.vstep addTable cmpFloat defs st op) (th ++ [r.1]) rest
+  go valStart [] hist
+
+/-- taint of every step's observation in the HEAP run (per cell: a re-weighting cleans the cell for all its handles) -/
+def heapTaints (defs : List (Nat × Table)) (hist : List (Op Float)) : List Bool :=
+  let rec go (st : HState) (tc : List Bool) : List (Op Float) → List Bool
+    | [] => []
+    | op :: rest =>
+      let addr := fun (h : Nat) => (st.handles[h]?).map (·.aas)
+      let t := fun (h : Nat) => match addr h with
+        | some a => (tc[a]?).getD false
+        | none => false
+      let st' := hstep cmpFloat st op
+      let grew := st'.heap.length > st.heap.length
+      -- (cells after the step, taint of what the step shows)
+      let r : List Bool × Bool := match op with
+        | .get _ =>
+          if grew then (tc ++ [false], false)
+          else (tc, match (st'.handles.getLast?).map (·.aas) with
+            | some a => (tc[a]?).getD false
+            | none => false)
+        | .reweight h _ =>
+          if grew then (tc ++ [false], false)
+          else (match addr h with
+            | some a => tc.set a false
+            | none => tc, false)
+        | .add h1 h2 => let x := t h1 || t h2; (tc ++ [x], x)
+        | .compromise h1 h2 _ =>
+          let x := t h1 || t h2 || (match (st.handles[h1]?).bind (deref st.heap), (st.handles[h2]?).bind (deref st.heap) with
+            | some t1, some t2 => hasNaN t1 t2
+            | _, _ => false)
+          (tc ++ [x], x)
+        | .json h => (tc ++ [t h], t h)
+        | .observe h => (tc ++ [false], t h)
+      r.2 :: go st' r.1 rest
+  go (HState.init defs) (defs.map fun _ => false) hist
 
 def obsEq (relaxed : Bool) (x y : Obs) : Bool :=
   if !relaxed then x == y
@@ -101,17 +154,28 @@ def obsEq (relaxed : Bool) (x y : Obs) : Bool :=
     | .table a, .table b => ValueTables.codeOf a == ValueTables.codeOf b
     | a, b => a == b
 
-/-- traces equal; from step `relaxFrom` on, tables are compared up to their code -/
-def eqTrace (relaxFrom : Nat) (a b : List Obs) : Bool :=
-  a.length == b.length && (a.zip b).zipIdx.all fun p => obsEq (p.2 ≥ relaxFrom) p.1.1 p.1.2
+/-- traces equal; a step whose observation is tainted is compared up to the code of the table -/
+def eqTrace (taint : List Bool) (a b : List Obs) : Bool :=
+  a.length == b.length && ((a.zip b).zip taint).all fun p => obsEq p.2 p.1.1 p.1.2
 
-def firstDiff (relaxFrom : Nat) (a b : List Obs) : Nat :=
-  ((a.zip b).zipIdx.takeWhile fun p => obsEq (p.2 ≥ relaxFrom) p.1.1 p.1.2).length
+def firstDiff (taint : List Bool) (a b : List Obs) : Nat :=
+  (((a.zip b).zip taint).takeWhile fun p => obsEq p.2 p.1.1 p.1.2).length
 
-def kfId (ndefs : Nat) (brk : List Nat) : String :=
-  match brk with
-  | r :: _ => if r < ndefs then "C08-alias-default" else "C08-receiver-mutated"
-  | [] => "none"
+/-- the known finding that explains a failure at step `d` of `hist`: the cell that step reads in the heap model -/
+def kfId (defs : List (Nat × Table)) (hist : List (Op Float)) (d : Nat) : String :=
+  let hs := runHeapFrom cmpFloat (HState.init defs) (hist.take d)
+  let vs := (hist.take d).foldl (ValueTables.vstep addTable cmpFloat defs) valStart
+  let addr := fun (h : Nat) => ((hs.handles[h]?).map (·.aas)).getD defs.length
+  let differs := fun (h : Nat) => (hs.handles[h]?).bind (deref hs.heap) != vs.handles[h]?
+  let cell : Nat := match hist[d]? with
+    | some (.get id) => (ValueTables.indexOfId defs id).getD defs.length
+    | some (.reweight h _) => addr h
+    | some (.add h1 h2) => if differs h1 then addr h1 else addr h2
+    | some (.compromise h1 h2 _) => if differs h1 then addr h1 else addr h2
+    | some (.json h) => addr h
+    | some (.observe h) => addr h
+    | none => defs.length
+  if cell < defs.length then "C08-alias-default" else "C08-receiver-mutated"
 
 def judgeHist (ids : String) (toks : List String) (out : List String) : Verdict :=
   let idl := parseIds ids
@@ -126,13 +190,15 @@ def judgeHist (ids : String) (toks : List String) (out : List String) : Verdict 
       let shapeOk := vals.length == idl.length + hist.length && starts.all Option.isSome
       -- (a) pristine start, judged on what poly built (the harness only snapshots / restores)
       let cleanStart := shapeOk && reported.all fun p => isPristine p.1 p.2
-      let relax := firstNaN reported hist
+      -- steps whose observation carries int(NaN) weights in either semantics
+      let relax := ((valTaints reported hist).zip (heapTaints reported hist)).map fun p => p.1 || p.2
       -- correspondence: heap model from the reported state
       let heapTrace := runHeap cmpFloat reported hist
       let corr := shapeOk && eqTrace relax impl heapTrace
       -- (b) value semantics from the same tables
       let valTrace := ValueTables.runValue addTable cmpFloat reported hist
       let valOk := shapeOk && eqTrace relax impl valTrace
+      let badReply := impl.any fun o => o == Obs.fault
       let pass := cleanStart && valOk
       let lin := ValueTables.Linear reported hist
       let ascii := hist.all fun o => match o with | .reweight _ s => asciiStr s | _ => true
@@ -140,9 +206,10 @@ def judgeHist (ids : String) (toks : List String) (out : List String) : Verdict 
       let known := !pass && cleanStart && !lin && corr
       let cls := (if nrew == 0 then "triv:" else "") ++ "hist/"
         ++ (if lin then "linear" else "nonlinear") ++ (if ascii then "" else "/non-ascii")
-        ++ (if known then "/kf:" ++ kfId reported.length (ValueTables.breaks reported hist) else "")
+        ++ (if known then "/kf:" ++ kfId reported hist (firstDiff relax impl valTrace) else "")
+        ++ (if badReply then "/bad-reply" else "")
         ++ (if !cleanStart then "/start-not-pristine" else "")
-        ++ (if relax < hist.length then "/nan" else "")
+        ++ (if relax.any id then "/nan" else "")
         ++ "/len" ++ toString hist.length
         ++ (if hist.any fun o => match o with | .reweight _ s => s.length % 3 != 0 | _ => false then "/frame" else "")
       let d := if corr && pass then "" else
@@ -181,8 +248,12 @@ def judgeConc (threads : List String) (out : List String) : Verdict :=
   let n := ths.length
   let distinct := decide (ths.map (·.1)).Nodup
   if !distinct then
-    -- control: two goroutines on the same id race by construction (known sharing); not in the property's domain
-    { corr := true, judge := none, cls := "ctl:conc-same-id/" ++ (out.head?.getD "missing"), detail := "" }
+    -- CONTROL of the check's own machinery, generated only into the runs under the race detector: two goroutines on
+    -- the same id race by construction (known sharing).  The reply MUST be `race` (the detector killed the
+    -- process); anything else means the race runs prove nothing, and that is raised as a failure.
+    let raced := out.head? == some "race"
+    { corr := raced, judge := some raced, cls := "triv:ctl:conc-same-id/" ++ (out.head?.getD "missing"),
+      detail := if raced then "" else "race control did not come back as `race`: the race detector run is not functional" }
   else
   match out with
   | "ok" :: vals =>
